@@ -352,13 +352,36 @@ def run_canary(P, rep):
                               'canaries/c12_nondeterminism.c:%s:false-alarm-%s' % (f, c), 'the %s scanner flags the benign canary function %s (%s)' % (sc, f, c))
 
 
+def r126(P, rep):
+    """a self-compiled chibicc can only equal the reference build if the translation rules hold for the
+    constructs its own sources use: re-use the per-kind translation validation of C01/C02 (integer and floating
+    conversion cells, operator emission, truth tests) and report every cell that is not a listed C01/C02 finding"""
+    from ..report import Report
+    from ..chibi import CG
+    from . import c01, c02
+    rep.rule('R12.6', 'self-compilation: every conversion cell and operator arm of the code generator translates its construct as C11 prescribes (same obligations as C01 R01.5/R01.6 and C02 R02.1-R02.5; cells with a listed C01/C02 finding are covered by the R12.5 lint instead)', floor=250)
+    sub1 = Report('C01'); sub2 = Report('C02')
+    cg = c01.wrap(CG(P))
+    c01.r016(cg, sub1); sub1.rule('R01.5', '', 1); c01.r015(cg, sub1, 'int')
+    sub2.rule('R02.1', '', 1); c01.r015(cg, sub2, 'fp'); c02.r022(cg, sub2); c02.r024(cg, sub2)
+    for sub in (sub1, sub2):
+        for o in sub.obs:
+            if o['verdict'] == 'known-finding':
+                continue
+            key = o['key'].replace(':', '/', 1)
+            if o['verdict'] == 'undecided':
+                rep.undecided('R12.6', key, o['what'], where=o['where'])
+            else:
+                rep.ob('R12.6', key, o['verdict'] == 'holds', 'stage 2 would differ from stage 1 wherever chibicc\'s own sources use this construct: ' + o['what'], where=o['where'], facts=o['facts'])
+
+
 # ------------------------------------------------------------------------ run ---
 def run(P, rep, tier):
     rep.explanation = ('Determinism clause of C12 only: which functions may obtain a value that differs from run to run (time, pid, random, environment, '
                        'file metadata, temp names) and where the time value flows; no address-valued data in format arguments or integer conversions; '
                        'hash-table bucket arrays touched only by the table implementation; numbering sources are function-local static counters changed only by ++. '
                        'Every scanner is exercised on a canary file on each run. NOT decided: the fixpoint itself (stage-2 = stage-1 output on every input, stage 2 = stage 3); '
-                       'a miscompilation of a construct chibicc\'s own sources use (e.g. a wrong cast-table cell) is the business of C01/C02/C04, not of this check.')
+                       'a miscompilation of a construct chibicc\'s own sources use is covered by re-running the C01/C02 translation rules (R12.6).')
     rep.assumptions += ['libc functions outside the source table are deterministic functions of their arguments and of file contents',
                         'pointer comparisons and pointer differences are within one object (not checked)',
                         'uninitialised memory is not read (not checked here)']
@@ -368,6 +391,7 @@ def run(P, rep, tier):
     rep.rule('R12.4', 'every function-local static integer (label / name / __COUNTER__ / file numbering) has a constant initial value and is changed only by ++', floor=6)
     rep.rule('R12.5', 'self-application lint: chibicc\'s own units do not contain constructs that a known finding says chibicc miscompiles (fp -> unsigned 64-bit, unsigned 64-bit -> float, discarded long double value, value of a long double assignment); an item retires when its finding is no longer listed', floor=13)
     run_canary(P, rep)
+    r126(P, rep)
     cg = L.CallGraph(P)
     units = [P.unit(n) for n in P.unit_names]
     # ---------------- R12.1
